@@ -124,6 +124,38 @@ def run_case(ctx, mr, case):
             break
     if len(out) != len(img):
         ctx.diff('oracle', 'frame-size', case, len(img), len(out), 'file size changed')
+    # healing: a block that reads as filler (its data was damaged) is rewritten whole; the same session must then read the new data
+    # (verdicts cached before the write are void), and the file must verify
+    pi = rng.randrange(len(info['partitions']))
+    ip = info['partitions'][pi]
+    bs4 = ip['block_sizes'][3]
+    b = rng.randrange(ip['level_blocks'][3])
+    off, ln = rng.choice(ip['lv4_segments'][b])
+    if ln:
+        bad = bytearray(img)
+        bad[off + rng.randrange(ln)] ^= 0x40
+        c3, bio3 = sc.open_container(bytes(bad), geom['kind'])
+        r3 = sc.lv4_reader(c3, pi)
+        lo = b * bs4
+        n = min(bs4, len(payloads[pi]) - lo)
+        r3.seek(lo)
+        first = r3.read(n)
+        new = pyenv.rbytes(rng, n)
+        r3.seek(lo)
+        k = r3.write(new)
+        r3.seek(lo)
+        again = r3.read(n)
+        hcase = dict(case, part=pi, block=b, heal=True)
+        if first != b'\xDD' * n:
+            ctx.diff('oracle', 'heal:damaged-block-served', hcase, 'filler', first[:8].hex(), 'a damaged level-4 block was served as valid')
+        if k != n or again != new:
+            ctx.diff('oracle', 'heal:readback', hcase, new[:8].hex(), (again[:8].hex() if isinstance(again, bytes) else again),
+                     f'level-4 block {b} read as filler, was rewritten whole ({k} of {n} bytes stored), and does not read back as written in the same session')
+        res3 = SV.verify_image(bio3.getvalue())
+        if not res3['ok']:
+            ctx.diff('oracle', 'heal:verify', hcase, 'ok', str(res3['bad_blocks'][:3]), 'after rewriting a damaged block the file does not verify')
+        c3.close()
+        ctx.stat('heal_histories')
     # CMAC
     if cm and wrote:
         hdr = out[0x100:0x200]
